@@ -35,12 +35,50 @@ def preload():
     _TREES.clear()
 
 
+def _fold(node, depth=0):
+    """Value of an arithmetic expression made of integer literals only (256 * 1024, 1 << 20, 2 ** 16 - 1), else None."""
+    if depth > 6:
+        return None
+    if isinstance(node, ast.Constant):
+        return node.value if isinstance(node.value, int) and not isinstance(node.value, bool) else None
+    if isinstance(node, ast.UnaryOp) and isinstance(node.op, ast.USub):
+        v = _fold(node.operand, depth + 1)
+        return None if v is None else -v
+    if isinstance(node, ast.BinOp):
+        a, b = _fold(node.left, depth + 1), _fold(node.right, depth + 1)
+        if a is None or b is None:
+            return None
+        try:
+            if isinstance(node.op, ast.Mult):
+                v = a * b
+            elif isinstance(node.op, ast.Add):
+                v = a + b
+            elif isinstance(node.op, ast.Sub):
+                v = a - b
+            elif isinstance(node.op, ast.LShift) and 0 <= b <= 64:
+                v = a << b
+            elif isinstance(node.op, ast.Pow) and 0 <= b <= 64 and abs(a) <= 1024:
+                v = a ** b
+            elif isinstance(node.op, ast.FloorDiv) and b:
+                v = a // b
+            else:
+                return None
+        except Exception:  # noqa: BLE001
+            return None
+        return v if abs(v) < 2 ** 64 else None
+    return None
+
+
 def _literals(path, min_int=None):
     ints, strs = set(), set()
     tree = _tree(path)
     if tree is None:
         return ints, strs
     for node in ast.walk(tree):
+        if isinstance(node, ast.BinOp):
+            v = _fold(node)
+            if v is not None and (min_int is None or abs(v) >= min_int):
+                ints.add(v)
         if isinstance(node, ast.Constant):
             v = node.value
             if isinstance(v, bool):
